@@ -32,6 +32,9 @@ func dvSafe(t []byte) bool {
 	return true
 }
 
+// values whose uvarint encoding is exactly at a width boundary (1|2, 2|3, 3|4, 4|5 bytes)
+var varintEdges = []int{127, 128, 129, 16383, 16384, 16385, 2097151, 2097152, 268435455, 268435456}
+
 var fieldNames = []string{"body", "title", "tags", "cmp", "a b", "Zed", "h\xc3\xa9", "_x"}
 
 var ChunkModes = []uint32{1, 2, 3, 4, 5, 1024, 1025}
@@ -142,6 +145,9 @@ func (g *Gen) Batch(o BatchOpts) Batch {
 				if r.Intn(12) == 0 {
 					tm.Freq = 1 + r.Intn(300) // multi-byte varint
 				}
+				if r.Intn(25) == 0 {
+					tm.Freq = varintEdges[r.Intn(5)] // exactly at a varint width boundary
+				}
 				if c.tv {
 					nl := r.Intn(tm.Freq + 1)
 					if nl > 4 {
@@ -153,6 +159,17 @@ func (g *Gen) Batch(o BatchOpts) Batch {
 						if r.Intn(15) == 0 {
 							lc.Start = 100 + r.Intn(40000) // multi-byte varint
 							lc.End_ = lc.Start + 1
+						}
+						if r.Intn(20) == 0 { // a value exactly at a varint width boundary
+							e := varintEdges[r.Intn(len(varintEdges))]
+							switch r.Intn(3) {
+							case 0:
+								lc.Pos = e
+							case 1:
+								lc.Start, lc.End_ = e-1, e
+							default:
+								lc.End_ = e
+							}
 						}
 						if c.composite && r.Intn(2) == 0 {
 							lc.Field = fieldNames[r.Intn(o.NFields)]
